@@ -6,6 +6,10 @@
        stripped  -ldflags='-s -w': pclntab readable, no .symtab
        pie       -buildmode=pie: the section goom looks for is not there, the table load fails
        piestripped  -buildmode=pie -ldflags='-s -w': neither the section nor the ELF symbols
+       external  -ldflags='-s=false -linkmode=external' (what cgo packages get): tables readable; the C start-up code comes
+                 first in .text, so the pclntab-derived entries are off by a constant that goom measures at an anchor function
+   The answers must not depend on the ORDER of lookups (which kind of symbol the process looks up first): every mode
+   with readable variables is run twice, the second time with a variable as the very first lookup.
    MECHANISM (symbols.go / unexports2.go): loadSymbolTable once (sticky error); initAlignmentFunc computes the
    function slide from an anchor function and the variable slide from an anchor variable (returns early, leaving
    both at 0, if the anchor function is missing; leaves the variable slide at 0 if the anchor variable is
@@ -14,14 +18,14 @@
    symbol's address - for absent names or unreadable tables. *)
 EXTENDS Integers, Sequences, TLC
 
-Modes == {"default", "symtab", "stripped", "pie", "piestripped"}
+Modes == {"default", "symtab", "stripped", "pie", "piestripped", "external"}
 Pie(m) == m \in {"pie", "piestripped"}
 Kinds == {"func", "var"}
 NameClasses == {"present", "absent"}
 
 FuncTable(m) == ~Pie(m)                        \* pclntab readable
-VarTable(m) == m = "symtab"                     \* ELF symbols readable (and the load as a whole succeeded)
-Slide(m) == IF Pie(m) THEN 4096 ELSE 0       \* run-time minus file address
+VarTable(m) == m \in {"symtab", "external"}                     \* ELF symbols readable (and the load as a whole succeeded)
+Slide(m) == IF Pie(m) THEN 4096 ELSE IF m = "external" THEN 256 ELSE 0       \* run-time minus file address
 
 \* mechanism
 Loaded(m) == FuncTable(m)
